@@ -283,14 +283,57 @@ def h_inv(a):
     out = _np.empty(p.shape, dtype=object)
     for idx in _np.ndindex(*bs):
         M = [list(r) for r in p[idx]]
+        # pull a common Laurent monomial out of the matrix (e.g. the 1/D of a previous inverse): inv(g N) = inv(N) / g
+        g = _common_laurent(M)
+        if g is not None:
+            gi = Alg(Poly({tuple((v, -e) for v, e in g): 1}))
+            M = [[x * gi for x in row] for row in M]
         d = _det_list(M)
         if bool(d == 0):
             raise _np.linalg.LinAlgError("Singular matrix")
         adj = _adj_list(M)
+        d = _name_nonzero(d, "det")
+        scale = (Alg.const(1) / d) if g is None else gi / d
         for i in range(n):
             for j in range(n):
-                out[idx + (i, j)] = adj[i][j] / d
+                out[idx + (i, j)] = adj[i][j] * scale
     return SymArray(_fix_elems(out, vd), vd)
+
+
+def _common_laurent(M):
+    """monomial g with negative exponents only such that every entry of M is g * (polynomial without negative exponents); None if not needed / not applicable"""
+    mins = {}
+    for row in M:
+        for x in row:
+            if not isinstance(x, Alg) or x.special or x.d is not None:
+                return None
+            for m in x.n.t:
+                for v, e in m:
+                    if e < 0 and e < mins.get(v, 0):
+                        mins[v] = e
+    if not mins:
+        return None
+    return tuple(sorted(mins.items()))
+
+
+def _name_nonzero(d, base):
+    """give a non-zero polynomial value a name D (opaque unit variable with D == value known to the solver and to the
+    normal form's unfolding): 1/D stays a Laurent monomial, which keeps inverse matrices polynomial"""
+    if isinstance(d, Cx) or not isinstance(d, Alg) or d.d is not None or d.n.single_term() is not None or d.n.has_neg():
+        return d
+    P = cur()
+    memo = P.__dict__.setdefault("_named", {})
+    k = d.n.key()
+    if k in memo:
+        return memo[k]
+    vid = fresh("def", base=base, nonzero=True)
+    z = P.vars[vid].z
+    P.add_def(z == d.n.z3())
+    P.__dict__.setdefault("_defvals", {})[vid] = d.n
+    P.__dict__["_unfold_in_cmp"] = True
+    r = Alg.var(vid)
+    memo[k] = r
+    return r
 
 
 @handles(_np.linalg.solve)
